@@ -1,0 +1,72 @@
+//go:build verif
+
+// Copyright JAMF Software, LLC
+
+package replication
+
+import (
+	"time"
+
+	"github.com/benbjohnson/clock"
+	"github.com/jamf/regatta/regattapb"
+	"github.com/jamf/regatta/storage"
+	"github.com/prometheus/client_golang/prometheus"
+	"go.uber.org/zap"
+	"golang.org/x/sync/semaphore"
+)
+
+// Verification hooks, compiled only with the verif build tag: they let a harness step the real
+// replication worker (one poll, one recovery) instead of its timers. No behaviour is added.
+
+// VerifWorker wraps a real worker.
+type VerifWorker struct{ w *worker }
+
+// VerifPollResult names the outcome of one poll.
+type VerifPollResult int
+
+const (
+	VerifUnknown         = VerifPollResult(resultUnknown)
+	VerifLeaderBehind    = VerifPollResult(resultLeaderBehind)
+	VerifLeaderAhead     = VerifPollResult(resultLeaderAhead)
+	VerifFollowerLagging = VerifPollResult(resultFollowerLagging)
+	VerifFollowerTailing = VerifPollResult(resultFollowerTailing)
+	VerifTableNotExists  = VerifPollResult(resultTableNotExists)
+	VerifBackoff         = VerifPollResult(resultBackoff)
+)
+
+// VerifNewWorker builds a worker for table over the follower engine with the given leader clients.
+func VerifNewWorker(e *storage.Engine, table string, lc regattapb.LogClient, sc regattapb.SnapshotClient, logTimeout, snapshotTimeout time.Duration) *VerifWorker {
+	f := &workerFactory{
+		pollInterval:      time.Second,
+		leaseInterval:     time.Second,
+		reconcileInterval: time.Second,
+		logTimeout:        logTimeout,
+		snapshotTimeout:   snapshotTimeout,
+		recoverySemaphore: semaphore.NewWeighted(1),
+		log:               zap.NewNop().Sugar(),
+		engine:            e,
+		logClient:         lc,
+		snapshotClient:    sc,
+	}
+	f.metrics.replicationIndex = prometheus.NewGaugeVec(prometheus.GaugeOpts{Name: "verif_replication_index"}, []string{"role", "table"})
+	f.metrics.replicationLeased = prometheus.NewGaugeVec(prometheus.GaugeOpts{Name: "verif_replication_leased"}, []string{"table"})
+	w := f.create(table)
+	w.store.clock = clock.New()
+	return &VerifWorker{w: w}
+}
+
+// Poll is one iteration of the replication routine: read the table state, then replicate.
+func (v *VerifWorker) Poll() (VerifPollResult, error) {
+	idx, id, err := v.w.tableState()
+	if err != nil {
+		return VerifUnknown, err
+	}
+	r, err := v.w.do(idx, v.w.engine.GetNoOPSession(id))
+	return VerifPollResult(r), err
+}
+
+// Recover runs the snapshot recovery of the worker.
+func (v *VerifWorker) Recover() error { return v.w.recover() }
+
+// VerifReconcileTables runs the table-set reconciliation of the replication manager once.
+func (m *Manager) VerifReconcileTables() error { return m.reconcileTables() }
